@@ -409,9 +409,20 @@ def mask_plumbing(ctx):
     else:
         ctx.fail('C08.5', gm, enclosing_stmt(c), 'the population mask is read from (%s, %s), not from the array of field 189 with '
                  'the unpadded array length' % (U(c.args[1]) if len(c.args) > 1 else '?', U(c.args[2]) if len(c.args) > 2 else '?'))
-    nz = [a for a in ast.walk(gm.node) if isinstance(a, ast.Assign) and U(a.targets[0]) == 'self.mask' and '!= 0' in U(a.value)
-          and 'int32' in U(a.value)]
-    if nz:
+    def _nonzero_test(v):
+        """<int32 decode> != 0  in any spelling: the operator, np.not_equal(x, 0), x.astype(bool), np.nonzero-free forms"""
+        if isinstance(v, ast.Compare) and len(v.ops) == 1 and isinstance(v.ops[0], ast.NotEq):
+            sides = [v.left, v.comparators[0]]
+            return any(U(x) == '0' for x in sides) and any('int32' in U(x) for x in sides)
+        if isinstance(v, ast.Call) and U(v.func).split('.')[-1] == 'not_equal' and len(v.args) == 2:
+            return any(U(x) == '0' for x in v.args) and any('int32' in U(x) for x in v.args)
+        return False
+    stores_m = [a for a in ast.walk(gm.node) if isinstance(a, ast.Assign) and U(a.targets[0]) == 'self.mask' and
+                not (isinstance(a.value, ast.Constant) and a.value.value is None)]
+    nz = [a for a in stores_m if _nonzero_test(a.value) or ('!= 0' in U(a.value) and 'int32' in U(a.value))]
+    if not stores_m:
+        raise AnalysisError('get_unstructured_mask does not assign self.mask')
+    if nz and len(nz) == len(stores_m):
         ctx.ok('C08.5', gm, nz[0], 'populated = inline number != 0, decoded int32')
     else:
         ctx.fail('C08.5', gm, gm.name, 'the mask is not `frombuffer(int32) != 0`')
